@@ -110,11 +110,10 @@ func solve(name, smt string, getValues []string, timeoutS int, wantAll bool) Sol
 			case strings.HasPrefix(first, "(error") || strings.Contains(first, "rror"):
 				st = "error"
 			}
-			if (st == "unsat" || st == "sat") && strings.Contains(text, "(error") && !strings.Contains(text, "model is not available") {
-				st = "error"
-			}
-			if strings.Contains(text, "unknown constant") || strings.Contains(text, "is not declared") {
-				st = "error"
+			for _, bad := range []string{"unknown constant", "is not declared", "Parse Error", "invalid ", "unknown sort", "unknown function", "Sort mismatch", "sort mismatch", "expects"} {
+				if strings.Contains(text, bad) && strings.Contains(text, "(error") {
+					st = "error"
+				}
 			}
 			if os.Getenv("SCTPVC_KEEP") == "" {
 				os.Remove(file)
